@@ -73,6 +73,8 @@ var SharedTexts = []string{
 	"SELECT *, count(*), time FROM m, m2 GROUP BY *",
 	"CREATE CONTINUOUS QUERY cq ON db BEGIN SELECT mean(x) INTO t FROM m WHERE host !~ /^(a|b)$/ GROUP BY time(1h) END",
 	"SELECT *, percentile(x, 90), top(y, host, 2) FROM m WHERE time > now() - 1h GROUP BY host, time(10m, now())",
+	// a wildcard or regex directly inside a call of every class that the expansion treats differently
+	"SELECT mean(*), count(/x|y/), min(*), holt_winters(*, 10, 2), holt_winters_with_fit(/x|y/, 10, 2), sum(/x/), first(*), sample(*, 2) FROM m",
 }
 
 func SelOf(s influxql.Statement) *influxql.SelectStatement {
